@@ -198,6 +198,9 @@ class contrast:
         else:
             raise ValueError('Unknown statistic type')
         self._stat = t
+        # drop the p-value cached for a previous baseline, which
+        # zscore(baseline) would otherwise reuse
+        self._pvalue = None
         return t
 
     def pvalue(self, baseline=0.0):
